@@ -45,7 +45,7 @@ ASSUMPTIONS = [
 PROBES = [
     "finalize_after_subframe_chunk", "utt_after_too_short", "utt_after_other_dtype", "refusal_at_first",
     "refusal_in_middle", "refusal_before_finalize", "finalize_x3", "full_after_stream", "stream_after_full",
-    "empty_chunk_starts_utterance", "refusal_other_dtype",
+    "empty_chunk_starts_utterance", "refusal_other_dtype", "log_floor_changed_between_utterances",
 ]
 FAULT_KINDS = ["refused_compute_full", "refused_frame_by_frame", "extra_finalize", "empty_delivery"]
 
@@ -81,6 +81,9 @@ def generate(rng, tier, k):
         }
         mode = rng.choice(("stream", "stream", "stream", "full", "fbf"))
         utt = {"signal": sig, "mode": mode, "extra_finalize": rng.choice((0, 0, 0, 1, 2, 3))}
+        if u and rng.random() < 0.06:
+            utt["log_floor"] = rng.choice((1e-3, 1e-8, 0.5))
+            sig["kind"] = "impulses"  # mostly exact zeros: the floor is what comes out
         if mode == "stream":
             dl = source.gen_deliveries(rng, n, L, S, blk, max_deliveries=24)
             utt["deliveries"] = dl
@@ -147,9 +150,17 @@ def signature(cfg, utts, L, S):
 
 
 def execute(scn, keep_trace=False):
+    try:
+        return _execute(scn, keep_trace)
+    finally:
+        _set_log_floor(1e-5)
+
+
+def _execute(scn, keep_trace=False):
     res = Result()
     tr = Trace(keep_trace)
     cfg = scn["cfg"]
+    _set_log_floor(1e-5)
     c = configs.build(cfg)
     if not configs.in_domain(cfg, c):
         res.digest = tr.digest()
@@ -192,6 +203,10 @@ def execute(scn, keep_trace=False):
         xsha = _sha(x)
         xro = x.view()
         xro.flags.writeable = False
+        if u.get("log_floor") is not None:
+            # the application adjusts the documented package constant between two utterances
+            res.probe("log_floor_changed_between_utterances")
+            _set_log_floor(float(u["log_floor"]))
         twin = configs.build(cfg)
         mode = u["mode"]
         tr.log("utt", ui, mode, n, rec["dtype"])
@@ -224,6 +239,7 @@ def execute(scn, keep_trace=False):
                         res.probe("empty_chunk_starts_utterance")
                 try:
                     out = c.compute_chunk(ch)
+                    source.recycle(ch, mem)
                 except Exception as e:
                     if _twin_raises_too(e, lambda: twin.compute_chunk(source.deliver(x, a, ln, _twin_mem(mem)))):
                         res.probe("both_raise")  # not history dependent: outside this property
@@ -337,6 +353,12 @@ def execute(scn, keep_trace=False):
 def _twin_mem(mem):
     """The twin gets its own array with the same memory layout (summation order may depend on strides)."""
     return "strided" if mem == "strided" else "copy"
+
+
+def _set_log_floor(value):
+    from pydrobert.speech import config as _config
+
+    _config.LOG_FLOOR_VALUE = value
 
 
 def _twin_raises_too(e, fn):
